@@ -249,7 +249,8 @@ impl Mon {
         let mut seen: Set = 0;
         let mut stack = Small::default();
         for o in self.ids() {
-            if (self.ext[o as usize] > 0 || (weak_roots && self.extw[o as usize] > 0)) && self.live(o) {
+            // a Weak can only be upgraded while strong handles to the object exist
+            if (self.ext[o as usize] > 0 || (weak_roots && self.extw[o as usize] > 0 && self.strong(o) > 0)) && self.live(o) {
                 if seen & bit(o) == 0 {
                     seen |= bit(o);
                     stack.push(o);
@@ -398,7 +399,7 @@ impl Mon {
                 // K1 / K13: is d reachable from what the program holds, right now?
                 // C13 speaks of what "the program can still reach": after an elided unadopt
                 // that includes objects reachable by upgrading a Weak the program holds
-                let reach = if self.pre_broken { self.reach_incl_upgradable() } else { self.reach() };
+                let reach = self.reach();
                 if reach & bit(d) != 0 {
                     let stale = self.stale_at_start || self.stale_record_involved(d);
                     if !self.pre_broken {
@@ -454,6 +455,27 @@ impl Mon {
         for o in self.ids() {
             if self.upgrade_none & bit(o) != 0 && self.live(o) {
                 self.v("K5", "upgrade-in-destructor-refused-survivor".into(), format!("Weak::upgrade inside a destructor returned None for object {o}, which is still alive after the call"));
+            }
+        }
+        if self.pre_broken {
+            // C13 "no later operation touches freed memory": an object destroyed by this
+            // call must not be left behind in the value of an object that is still alive
+            // (or in the program's own hands). Such a dangling handle is what a later
+            // Weak::upgrade of the holder, or the holder's own teardown, runs into.
+            for d in self.ids() {
+                if self.died_now & bit(d) == 0 || self.status[d as usize] != Status::Destroyed {
+                    continue;
+                }
+                let held_by_live = self.ids().any(|p| p != d && self.live(p) && self.slots[p as usize].count(d) > 0);
+                if held_by_live || self.ext[d as usize] > 0 {
+                    let stale = self.stale_at_start;
+                    self.v(
+                        "K13",
+                        format!("reachable-object-destroyed-after-elided-unadopt;stale={}", stale as u8),
+                        format!("object {d} was destroyed although a live object's value (or the program) still holds a strong handle to it; an unadopt was elided earlier"),
+                    );
+                    break;
+                }
             }
         }
         if self.panicked {
